@@ -112,6 +112,21 @@ def eval_quote(v, ctx: dict):
         # one counts; the default is the statement's own context (the record it is evaluated under when none is given)
         if "ctx-present" in show(v.cond):
             return eval_quote(v.a, ctx)
+        # `x if x else y` (or the guard-clause spelling in a helper): the test is itself a quote expression
+        cond = v.cond
+        neg = False
+        while isinstance(cond, Sym) and cond.kind == "op" and cond.args[0] in ("not", "truthy", "bool"):
+            neg = neg != (cond.args[0] == "not")
+            cond = cond.args[1]
+        try:
+            c = eval_quote(cond, ctx)
+        except AnalysisError:
+            c = None
+            known = False
+        else:
+            known = True
+        if known:
+            return eval_quote(v.a if bool(c) != neg else v.b, ctx)
         a, b = eval_quote(v.a, ctx), eval_quote(v.b, ctx)
         if a == b:
             return a
